@@ -24,6 +24,7 @@ import (
 	"github.com/mimiro-io/datahub/internal/conf"
 	"github.com/mimiro-io/datahub/internal/security"
 	"github.com/mimiro-io/datahub/internal/server"
+	"github.com/mimiro-io/datahub/internal/verifhook"
 )
 
 // The Runner is used to organize and keep track of configured jobs. It is also responsible for running (duh) jobs.
@@ -107,6 +108,7 @@ func (runner *Runner) addScheduledJob(job *job) error {
 		runner.logger.Errorf("Error scheduling job %v (%s): %w", job.id, job.title, err)
 		return err
 	}
+	verifhook.Access(runner, "runner.scheduledJobs", true)
 	runner.scheduledJobs[job.id] = append(runner.scheduledJobs[job.id], entryID)
 
 	return nil
@@ -129,6 +131,7 @@ func (runner *Runner) deleteJob(jobID string) error {
 	runner.logger.Infof("Deleting job with id '%s'", jobID)
 	defer func() {
 		// make sure the schedules are removed from the crontab
+		verifhook.Access(runner, "runner.scheduledJobs", true)
 		clearCrontab(runner.scheduledJobs, jobID)
 		runner.eventBus.UnsubscribeToDataset(jobID)
 	}()
